@@ -24,7 +24,7 @@ package headers
 //@ pure func slotOK(d *HeaderData) bool = d != nil && d.Header != nil && d.AccumulatedWork != nil
 
 // tipOK: the branch has a last header whose accumulated work exists.
-//@ pure func tipOK(b *Branch) bool = b != nil && len(b.headers) > 0 && last(*b) != nil && last(*b).AccumulatedWork != nil
+//@ pure func tipOK(b *Branch) bool = b != nil && b.offset >= 1 && len(b.headers) > 0 && last(*b) != nil && last(*b).AccumulatedWork != nil
 
 // inBranch: the slot of this branch that holds height h (nil above the tip or below the pruned part).
 //@ pure func inBranch(b Branch, h int) *HeaderData = ite(h - b.parentHeight - b.offset >= len(b.headers) || h - b.parentHeight - b.offset < 0, nil, b.headers[h - b.parentHeight - b.offset])
@@ -54,6 +54,7 @@ package headers
 //@   ensures [C19.no-adjacent-duplicates] forall(i, 1, len(result), result[i] != result[i-1])
 //@   ensures [C19.first-kept] len(hashes) > 0 ==> len(result) > 0 && result[0] == hashes[0]
 //@   ensures [C19.no-longer] len(result) <= len(hashes)
+//@   ensures [C19.subset] forall(i, 0, len(result), exists(j, 0, len(hashes), result[i] == hashes[j]))
 //@   modifies nothing
 //@   loop 1
 //@     modifies elems(result)
@@ -63,6 +64,7 @@ package headers
 //@     invariant rangeindex >= 0 ==> previousHash == hashes[rangeindex] && result[len(result)-1] == hashes[rangeindex]
 //@     invariant rangeindex >= 0 ==> result[0] == hashes[0]
 //@     invariant forall(i, 1, len(result), result[i] != result[i-1])
+//@     invariant forall(i, 0, len(result), exists(j, 0, rangeindex+1, result[i] == hashes[j]))
 
 // ---------------------------------------------------------------------------------------------------
 // bitcoin.ConvertToDifficulty (dependency source, analysed like repository code for panics).
@@ -355,3 +357,134 @@ package headers
 //@   loop 1
 //@     invariant (-1 <= rangeindex && rangeindex < len(repo.invalidHashes)) || (len(repo.invalidHashes) == 0 && rangeindex == -1)
 //@     invariant !found && forall(i, 0, rangeindex+1, repo.invalidHashes[i] != hash)
+
+// ---------------------------------------------------------------------------------------------------
+// Lookups (C09) and merkle proof verification (C18)
+
+//@ func (*Repository).isLongestAtHeight
+//@   requires repo != nil && repo.longest != nil
+//@   ensures [C09.is-longest,C18.is-longest] height < 0 || height > tipH(*repo.longest) ==> !result
+//@   ensures [C09.is-longest,C18.is-longest] 0 <= height && height <= tipH(*repo.longest) && anc(repo.longest, height) != nil ==> result == (anc(repo.longest, height).Hash == hash)
+//@   modifies nothing
+
+//@ func (*Repository).CheckHeader
+//@   requires repoInv(repo)
+//@   ensures [C09.unknown,C18.unknown] !old(knownIn(repo.branches, hash)) && !old(has(repo.heights, hash)) ==> result0 == -1 && !result1 && result2 == ErrUnknownHeader
+//@   ensures [C09.known,C18.known] old(knownIn(repo.branches, hash)) || old(has(repo.heights, hash)) ==> result2 == nil
+//@   ensures [C09.height,C18.height] old(knownIn(repo.branches, hash)) ==> exists(j, 0, len(repo.branches), holderAt(repo.branches, hash, j) && result0 == findH(repo.branches[j], hash))
+//@   ensures [C09.height-fallback] !old(knownIn(repo.branches, hash)) && old(has(repo.heights, hash)) ==> result0 == old(repo.heights[hash])
+//@   ensures [C09.is-longest,C18.is-longest] result2 == nil && anc(repo.longest, result0) != nil ==> result1 == (0 <= result0 && result0 <= tipH(*repo.longest) && anc(repo.longest, result0).Hash == hash)
+//@   ensures [C09.is-longest,C18.is-longest] result2 == nil && (result0 < 0 || result0 > tipH(*repo.longest)) ==> !result1
+//@   modifies nothing
+
+//@ func (*Repository).GetHeader
+//@   requires repoInv(repo)
+//@   ensures [C09.unknown,C18.unknown] !old(knownIn(repo.branches, hash)) && !old(has(repo.heights, hash)) ==> result0 == nil && result1 == -1 && !result2 && result3 == ErrUnknownHeader
+//@   ensures [C09.header,C18.header] old(knownIn(repo.branches, hash)) && result3 == nil ==> exists(j, 0, len(repo.branches), holderAt(repo.branches, hash, j) && result1 == findH(repo.branches[j], hash) && anc(repo.branches[j], result1) != nil && result0 == anc(repo.branches[j], result1).Header)
+//@   ensures [C09.is-longest,C18.is-longest] old(knownIn(repo.branches, hash)) && result3 == nil && anc(repo.longest, result1) != nil ==> result2 == (0 <= result1 && result1 <= tipH(*repo.longest) && anc(repo.longest, result1).Hash == hash)
+//@   ensures [C09.header-fallback,C18.header] !old(knownIn(repo.branches, hash)) && result3 == nil ==> result0 != nil && hashOf(result0) == hash && result1 == old(repo.heights[hash]) && result2
+//@   modifies nothing
+
+//@ func (*Repository).HashHeight
+//@   requires repoInv(repo)
+//@   ensures [C09.height] old(knownIn(repo.branches, hash)) ==> exists(j, 0, len(repo.branches), holderAt(repo.branches, hash, j) && result == findH(repo.branches[j], hash))
+//@   ensures [C09.height-fallback] !old(knownIn(repo.branches, hash)) && old(has(repo.heights, hash)) ==> result == old(repo.heights[hash])
+//@   ensures [C09.unknown] !old(knownIn(repo.branches, hash)) && !old(has(repo.heights, hash)) ==> result == -1
+//@   modifies nothing
+
+//@ func (*Repository).PreviousHash
+//@   requires repoInv(repo)
+//@   ensures [C09.previous-unknown] !old(knownIn(repo.branches, hash)) ==> result0 == nil && result1 == -1
+//@   ensures [C09.previous] result0 != nil ==> exists(j, 0, len(repo.branches), holderAt(repo.branches, hash, j) && result1 == findH(repo.branches[j], hash) - 1 && anc(repo.branches[j], result1) != nil && *result0 == anc(repo.branches[j], result1).Hash)
+//@   ensures [C09.previous-nil] result0 == nil ==> result1 == -1
+//@   modifies nothing
+
+// merkleOK: the dependency's MerkleProof.Verify recomputes the root from TxID/Tx, Path and Index and compares it
+// with BlockHeader.MerkleRoot (or MerkleRoot); it is an uninterpreted predicate of the proof value here.
+//@ ufunc merkleOK(p merkle_proof.MerkleProof) bool
+//@ trusted func (github.com/tokenized/pkg/merkle_proof.MerkleProof).Verify
+//@   ensures (result == nil) == merkleOK(mp)
+//@   modifies nothing
+
+//@ func (*Repository).VerifyMerkleProof
+//@   requires repoInv(repo) && proof != nil
+//@   ensures [C18.not-verifiable] old(proof.BlockHeader) == nil && old(proof.BlockHash) == nil ==> result0 == -1 && !result1 && result2 == merkle_proof.ErrNotVerifiable
+//@   ensures [C18.proof-verified] result2 == nil ==> merkleOK(*proof)
+//@   ensures [C18.header-known] result2 == nil && old(proof.BlockHeader) != nil ==> old(knownIn(repo.branches, hashOf(proof.BlockHeader)) || has(repo.heights, hashOf(proof.BlockHeader)))
+//@   ensures [C18.hash-known] result2 == nil && old(proof.BlockHeader) == nil ==> old(knownIn(repo.branches, *proof.BlockHash) || has(repo.heights, *proof.BlockHash))
+//@   ensures [C18.height] result2 == nil && old(proof.BlockHeader) != nil && old(knownIn(repo.branches, hashOf(proof.BlockHeader))) ==> old(exists(j, 0, len(repo.branches), holderAt(repo.branches, hashOf(proof.BlockHeader), j) && result0 == findH(repo.branches[j], hashOf(proof.BlockHeader))))
+//@   ensures [C18.height-by-hash] result2 == nil && old(proof.BlockHeader) == nil && old(knownIn(repo.branches, *proof.BlockHash)) ==> old(exists(j, 0, len(repo.branches), holderAt(repo.branches, *proof.BlockHash, j) && result0 == findH(repo.branches[j], *proof.BlockHash)))
+//@   ensures [C18.failure] result2 != nil ==> result0 == -1 && !result1
+//@   modifies proof.BlockHeader
+
+// ---------------------------------------------------------------------------------------------------
+// Chain verification of a peer (C03)
+
+//@ pure func isRequired(r *Repository, k bitcoin.Hash32) bool = r.requiredSplit != nil && r.requiredSplit.AfterHash == k
+
+//@ func (*Repository).VerifyHeader
+//@   requires repo != nil && header != nil
+//@   ensures [C03.verify-only-bsv] (result == nil) == isRequired(repo, hashOf(header))
+//@   ensures [C03.verify-wrong-chain] !isRequired(repo, hashOf(header)) && isSplitAfter(repo, hashOf(header)) ==> cause(result) == ErrWrongChain
+//@   ensures [C03.verify-unknown] !isRequired(repo, hashOf(header)) && !isSplitAfter(repo, hashOf(header)) && repo.genesisHash != header.PrevBlock ==> result == ErrUnknownHeader
+//@   modifies nothing
+//@   loop 1
+//@     invariant (-1 <= rangeindex && rangeindex < len(repo.splits)) || (len(repo.splits) == 0 && rangeindex == -1)
+//@     invariant forall(s, 0, rangeindex+1, repo.splits[s].AfterHash != *hash)
+
+// ---------------------------------------------------------------------------------------------------
+// Header locators (C19)
+
+//@ pure func chainEntry(b Branch, e *HeightHash) bool = ancv(b, e.Height) != nil && e.Hash == ancv(b, e.Height).Hash
+//@ pure func splitEntry(splits Splits, e *HeightHash) bool = exists(s, 0, len(splits), e.Height == splits[s].Height && e.Hash == splits[s].BeforeHash)
+//@ pure func locEntry(b Branch, splits Splits, e *HeightHash) bool = e != nil && (chainEntry(b, e) || splitEntry(splits, e))
+//@ pure func firstBelowTip(b Branch, e *HeightHash) bool = e != nil && e.Height == tipH(b) - 1 && ancv(b, tipH(b) - 1) != nil && e.Hash == ancv(b, tipH(b) - 1).Hash
+
+//@ func (Branch).GetLocatorHashes
+//@   requires len(b.headers) > 0 && last(b) != nil && b.offset >= 1
+//@   ensures [C19.entries] forall(i, 0, len(result), locEntry(b, splits, result[i]))
+//@   ensures [C19.genesis-alone] tipH(b) == 0 ==> len(result) == 1 && result[0] != nil && result[0].Height == 0 && result[0].Hash == last(b).Hash
+//@   ensures [C19.starts-below-tip] tipH(b) != 0 && ancv(b, tipH(b) - 1) != nil ==> len(result) >= 1 && firstBelowTip(b, result[0])
+//@   ensures arr(result) == 0 || fresh(result)
+//@   modifies nothing
+//@   loop 1
+//@     modifies elems(splitAdded), elems(result)
+//@     invariant sameregion(result)
+//@     invariant forall(i, 0, len(result), locEntry(b, splits, result[i]))
+//@     invariant len(result) == 0 ==> previousHeight == -1 && height == tipH(b) - 1
+//@     invariant len(result) > 0 ==> firstBelowTip(b, result[0])
+//@   loop 2
+//@     modifies elems(splitAdded), elems(result)
+//@     invariant (-1 <= rangeindex && rangeindex < len(splits)) || (len(splits) == 0 && rangeindex == -1)
+//@     invariant sameregion(result) && len(result) >= atentry(len(result))
+//@     invariant forall(i, 0, len(result), locEntry(b, splits, result[i]))
+//@     invariant atentry(len(result)) > 0 ==> result[0] == atentry(result[0]) && firstBelowTip(b, result[0])
+//@     invariant atentry(len(result)) == 0 ==> len(result) == 0 || splitEntry(splits, result[0])
+//@   loop 3
+//@     modifies elems(splitAdded), elems(result)
+//@     invariant (-1 <= rangeindex && rangeindex < len(splits)) || (len(splits) == 0 && rangeindex == -1)
+//@     invariant sameregion(result) && len(result) >= atentry(len(result))
+//@     invariant forall(i, 0, len(result), locEntry(b, splits, result[i]))
+//@     invariant atentry(len(result)) > 0 ==> result[0] == atentry(result[0]) && firstBelowTip(b, result[0])
+
+// hashOK: the statement's classification of one locator hash: a best-chain header, a split fork point, or the
+// lowest held header of another tracked branch.
+//@ pure func sideBase(r *Repository, i int) *HeaderData = ancv(*r.branches[i], lowest(*r.branches[i]))
+//@ pure func hashOK(r *Repository, h bitcoin.Hash32) bool = existsv(ht, int, ancv(*r.longest, ht) != nil && ancv(*r.longest, ht).Hash == h) || exists(s, 0, len(r.splits), r.splits[s].BeforeHash == h) || exists(i, 0, len(r.branches), r.branches[i] != r.longest && sideBase(r, i) != nil && sideBase(r, i).Hash == h)
+//@ pure func entryOK(r *Repository, e *HeightHash) bool = e != nil && hashOK(r, e.Hash)
+
+//@ func (*Repository).GetLocatorHashes
+//@   requires repoInv(repo)
+//@   ensures [C19.classified] result1 == nil ==> forall(k, 0, len(result0), hashOK(repo, result0[k]))
+//@   ensures [C19.no-adjacent-duplicates] result1 == nil ==> forall(k, 1, len(result0), result0[k] != result0[k-1])
+//@   modifies nothing
+//@   loop 1
+//@     modifies elems(accumulatedHeightHashes)
+//@     invariant (-1 <= rangeindex && rangeindex < len(repo.branches)) || (len(repo.branches) == 0 && rangeindex == -1)
+//@     invariant sameregion(accumulatedHeightHashes) && (arr(accumulatedHeightHashes) == 0 || fresh(accumulatedHeightHashes))
+//@     invariant forall(i, 0, len(accumulatedHeightHashes), entryOK(repo, accumulatedHeightHashes[i]))
+//@   loop 2
+//@     modifies elems(result)
+//@     invariant (-1 <= rangeindex && rangeindex < len(result)) || (len(result) == 0 && rangeindex == -1)
+//@     invariant forall(i, 0, len(accumulatedHeightHashes), entryOK(repo, accumulatedHeightHashes[i]))
+//@     invariant forall(k, 0, rangeindex+1, hashOK(repo, result[k]))
